@@ -747,6 +747,9 @@ func (r Stack) Insert(x any, left int) (ok bool) {
 insert is a private method called by [Stack.Insert].
 */
 func (r *stack) insert(x any, left int) (ok bool) {
+	r.lock()
+	defer r.unlock()
+
 	// note the len before we start
 	var u1 int = r.ulen()
 
@@ -756,9 +759,6 @@ func (r *stack) insert(x any, left int) (ok bool) {
 		//err := errorf("failed: capacity violation")
 		return
 	}
-
-	r.lock()
-	defer r.unlock()
 
 	cfg, _ := r.config()
 
